@@ -180,6 +180,19 @@ def lambda_params(fn):
     return c
 
 
+def iterator_loops(fn, R):
+    """{iterator local decl id: rendering of the range} for the loops  for (it = X.begin(); it != X.end(); ++it)"""
+    c = getattr(fn, '_iterator_loops', None)
+    if c is None:
+        fn._iterator_loops = c = {}
+        from loops import iterator_for
+        for n in fn.all_nodes({'ForStmt'}):
+            il = iterator_for(fn, n['id'], R)
+            if il:
+                c[il['var']] = il['range']
+    return c
+
+
 def local_init(fn, did):
     c = getattr(fn, '_local_inits', None)
     if c is None:
@@ -404,6 +417,12 @@ class Renderer:
             return '%s[%s]' % (self.render(n['ch'][0], depth + 1), self.render(n['ch'][1], depth + 1))
         if k == 'ConditionalOperator':
             return '(%s ? %s : %s)' % tuple(self.render(n[x], depth + 1) for x in ('cond', 'lhs', 'rhs'))
+        if k == 'CXXOperatorCallExpr' and n.get('op') in ('*', '->') and len(n.get('args', [])) == 1:
+            t = fn.nodes[fn.strip(n['args'][0], 'all')]
+            if t['k'] == 'DeclRefExpr' and t['decl'].get('dk') == 'local' and '_iterator' in t['decl'].get('type', ''):
+                il = iterator_loops(fn, self)
+                if t['decl']['id'] in il:
+                    return '%s[local:%s]' % (il[t['decl']['id']], t['decl']['name'])
         if k in ('CXXMemberCallExpr', 'CXXOperatorCallExpr') and 'callee' in n:
             c = n['callee']
             obj = fn.call_obj(n)
